@@ -9,6 +9,55 @@ from harness import core
 MASKS = [b"\x96\x96\x96", b"\x99\x99\x99", b"\x00\x00\x00"]
 
 
+def gfmul(a, b):
+    """GF(2^8) product by shift-and-reduce modulo x^8+x^4+x^3+x^2+1 (aims inputs only, the verdict is TLC's)"""
+    r = 0
+    while b:
+        if b & 1:
+            r ^= a
+        a <<= 1
+        if a & 0x100:
+            a ^= 0x11D
+        b >>= 1
+    return r
+
+
+def gfinv(a):
+    return next(x for x in range(1, 256) if gfmul(a, x) == 1)
+
+
+def generator_poly():
+    """g(x) = (x - alpha)(x - alpha^2)(x - alpha^3), coefficients lowest degree first"""
+    g = [1]
+    for root in (2, 4, 8):
+        g = [gfmul(root, g[0])] + [g[i - 1] ^ gfmul(root, g[i]) for i in range(1, len(g))] + [g[-1]]
+    return g
+
+
+def aimed_message(parity, rng):
+    """a 9-symbol message whose unmasked parity is the given three octets: a multiple q(x) g(x) of the generator with
+    the three lowest coefficients solved for (triangular system) and the upper six coefficients of q free"""
+    g = generator_poly()
+    c = [parity[2], parity[1], parity[0]]                     # lowest degree first
+    q = [0] * 9
+    ig0 = gfinv(g[0])
+    for i in range(3):
+        acc = c[i]
+        for j in range(i):
+            acc ^= gfmul(q[j], g[i - j])
+        q[i] = gfmul(acc, ig0)
+    for i in range(3, 9):
+        q[i] = rng.getrandbits(8) if rng.random() < 0.8 else 0
+    word = [0] * 12                                            # lowest degree first
+    for i, qi in enumerate(q):
+        for j, gj in enumerate(g):
+            word[i + j] ^= gfmul(qi, gj)
+    word.reverse()
+    if word[9:] != list(parity):
+        raise core.MachineryError("aimed Reed-Solomon message does not have the requested parity")
+    return word[:9]
+
+
 def run(ctx):
     ctx.rule = ("all 65 536 products of log_multiply recomputed by TLC; generate on the 9 x 255 single-symbol messages, the "
                 "standard masks and random (message, mask) pairs: TLC evaluates the syndromes of the unmasked word; check on "
@@ -45,8 +94,17 @@ def run(ctx):
             m[pos] = v
             g(m, MASKS[(pos + v) % 3])
     g([0] * 9, MASKS[2])
-    nrand = 1000 if ctx.quick else 80000
     words = []
+    # aimed by the code's algebra: messages whose unmasked parity is all-zero (multiples of the generator, the all-zero
+    # message among them), equals the mask (the transmitted parity is then 000000), or has zero / one / all-one octets -
+    # 2^-24 luck each for a random message
+    for k in range(60 if ctx.quick else 3000):
+        mask = (MASKS + [bytes(rng.getrandbits(8) for _ in range(3))])[k % 4]
+        x, y = rng.randrange(1, 256), rng.randrange(1, 256)
+        target = [[0, 0, 0], list(mask), [0, x, y], [x, 0, y], [x, y, 0], [1, 1, 1], [255, 255, 255], [1, 0, 0], [0, 0, 1],
+                  [mask[0], x, y], [x, y, mask[2]], [a ^ 1 for a in mask]][(k // 4) % 12]
+        words.append((g(aimed_message(target, rng) if k >= 4 else [0] * 9, mask), mask))
+    nrand = 1000 if ctx.quick else 80000
     for _ in range(nrand):
         m = [rng.getrandbits(8) for _ in range(9)]
         mask = rng.choice(MASKS + [bytes(rng.getrandbits(8) for _ in range(3))])
